@@ -137,10 +137,23 @@ pub fn run(args: &Args) -> Report {
         let ctx = json!({"kind":"refs","seed":args.seed(),"index":i,"threaded":threaded});
         let mut ok = true;
         let mut events: Vec<std::rc::Rc<Ev>> = vec![];
-        for k in 0..nstores {
-            // mostly plain notes; every few stores one that makes the store remove an earlier event
-            // (a newer replaceable / parameterised event, or a deletion request naming a tracked one),
-            // and now and then an explicit removal: references to removed events stay valid too
+        // Steps: mostly plain notes; every few stores one that makes the store remove an earlier event
+        // (a newer replaceable / parameterised event, or a deletion request naming a tracked one), now and
+        // then an explicit removal; and "tail" steps, where the event a reference was just taken to is
+        // the newest thing in the map when it is replaced or removed, followed by further appends
+        // (references to removed events stay valid too, and their space is not handed out again).
+        struct Step {
+            ev: std::rc::Rc<Ev>,
+            track: bool,
+            remove_after: bool,
+        }
+        let mut created = 1000u64;
+        let mut mk = |rng: &mut Rng, author_n: u8, kind: u16, tags: Vec<Vec<String>>, extra: usize| {
+            created += 1;
+            Ev::new(SemEvent { id: rng.arr32(), pubkey: crate::dbgen::author(author_n), sig: [1; 64], kind, created_at: created, tags, content: "x".repeat(content_len + extra) }).unwrap()
+        };
+        let mut stores_done = 0usize;
+        'hist: for k in 0..nstores {
             let shape = k % 7;
             let author_n = (k % 3) as u8;
             let (kind, mut tags): (u16, Vec<Vec<String>>) = match shape {
@@ -164,66 +177,83 @@ pub fn run(args: &Args) -> Report {
             if kind != 1 {
                 rep.count("stores_that_remove_an_earlier_event");
             }
-            let e = Ev::new(SemEvent {
-                id: rng.arr32(),
-                pubkey: crate::dbgen::author(author_n),
-                sig: [1; 64],
-                kind,
-                created_at: 1000 + k as u64,
-                tags,
-                content: "x".repeat(content_len + (k % 9)),
-            })
-            .unwrap();
-            events.push(e.clone());
-            // the store happens on this thread or on another one
-            let res = if threaded {
-                let s2 = store.clone();
-                let b = e.bytes.clone();
-                std::thread::spawn(move || {
-                    let ev = pocket_types::OwnedEvent(b);
-                    s2.store_event(&ev).map_err(|e| format!("{e}"))
-                })
-                .join()
-                .unwrap_or(Err("thread panicked".into()))
-            } else {
-                let ev = pocket_types::OwnedEvent(e.bytes.clone());
-                store.store_event(&ev).map_err(|e| format!("{e}"))
-            };
-            let off = match res {
-                Ok(o) => o,
-                Err(err) => {
-                    rep.inconclusive.push(format!("store failed: {err}"));
-                    break;
+            let mut steps = vec![Step { ev: mk(&mut rng, author_n, kind, tags, k % 9), track: k % 4 == 0, remove_after: false }];
+            match k % 10 {
+                // referenced event is the newest in the map when a newer event at its address replaces it
+                3 => {
+                    let (tk, tt): (u16, Vec<Vec<String>>) = if k % 20 == 3 { (10007, vec![]) } else { (30077, vec![vec!["d".into(), "tail".into()]]) };
+                    steps.push(Step { ev: mk(&mut rng, 3, tk, tt.clone(), 1), track: true, remove_after: false });
+                    steps.push(Step { ev: mk(&mut rng, 3, tk, tt, 2), track: false, remove_after: false });
+                    steps.push(Step { ev: mk(&mut rng, 4, 1, vec![], 3), track: false, remove_after: false });
+                    rep.count("tail_replacements_of_a_referenced_event");
                 }
-            };
-            let len_now = std::fs::metadata(dir.join("event.map")).map(|m| m.len()).unwrap_or(0);
-            if len_now > last_len {
-                growths += 1;
-                last_len = len_now;
+                // referenced event is the newest in the map when it is removed explicitly; then appends follow
+                7 => {
+                    steps.push(Step { ev: mk(&mut rng, 4, 1, vec![], 4), track: true, remove_after: true });
+                    steps.push(Step { ev: mk(&mut rng, 4, 1, vec![], 5), track: false, remove_after: false });
+                    rep.count("tail_removals_of_a_referenced_event");
+                }
+                _ => {}
             }
-            // all references taken so far must still be where the live mapping has their offsets
-            if !check_tracked(&mut rep, &store, &mut tracked, growths, &ctx) {
-                ok = false;
-                if rep.has_finding("bytes-changed") || rep.has_finding("bytes-changed-at-stable-address") || rep.has_finding("reference-target-unreadable") {
-                    break;
-                }
-            }
-            // take new references (three ways), recording address, length and a byte copy
-            if k % 4 == 0 && tracked.len() < 40 {
-                if let Ok(r) = store.get_event_by_offset(off) {
-                    tracked.push(Tracked { addr: addr_of_ref(r), len: r.len(), offset: off, copy: r.as_bytes().to_vec(), how: "by offset", growths_at_take: growths });
-                }
-                if let Ok(Some(r)) = store.get_event_by_id(Id::from_bytes(e.sem.id)) {
-                    tracked.push(Tracked { addr: addr_of_ref(r), len: r.len(), offset: off, copy: r.as_bytes().to_vec(), how: "by id", growths_at_take: growths });
-                }
-                let f = SemFilter { ids: vec![e.sem.id], ..SemFilter::empty() }.to_owned().unwrap();
-                if let Ok((evs, _)) = store.find_events(&f, true, 0, 0, |_| ScreenResult::Match) {
-                    for r in evs {
-                        tracked.push(Tracked { addr: addr_of_ref(r), len: r.len(), offset: off, copy: r.as_bytes().to_vec(), how: "from a query", growths_at_take: growths });
+            for st in steps {
+                let e = st.ev.clone();
+                events.push(e.clone());
+                // the store happens on this thread or on another one
+                let res = if threaded {
+                    let s2 = store.clone();
+                    let b = e.bytes.clone();
+                    std::thread::spawn(move || {
+                        let ev = pocket_types::OwnedEvent(b);
+                        s2.store_event(&ev).map_err(|e| format!("{e}"))
+                    })
+                    .join()
+                    .unwrap_or(Err("thread panicked".into()))
+                } else {
+                    let ev = pocket_types::OwnedEvent(e.bytes.clone());
+                    store.store_event(&ev).map_err(|e| format!("{e}"))
+                };
+                let off = match res {
+                    Ok(o) => o,
+                    Err(err) => {
+                        rep.inconclusive.push(format!("store failed: {err}"));
+                        break 'hist;
                     }
+                };
+                stores_done += 1;
+                let len_now = std::fs::metadata(dir.join("event.map")).map(|m| m.len()).unwrap_or(0);
+                if len_now > last_len {
+                    growths += 1;
+                    last_len = len_now;
+                }
+                // all references taken so far must still be where the live mapping has their offsets
+                if !check_tracked(&mut rep, &store, &mut tracked, growths, &ctx) {
+                    ok = false;
+                    if rep.has_finding("bytes-changed") || rep.has_finding("bytes-changed-at-stable-address") || rep.has_finding("reference-target-unreadable") {
+                        break 'hist;
+                    }
+                }
+                // take new references (three ways), recording address, length and a byte copy
+                if st.track && tracked.len() < 60 {
+                    if let Ok(r) = store.get_event_by_offset(off) {
+                        tracked.push(Tracked { addr: addr_of_ref(r), len: r.len(), offset: off, copy: r.as_bytes().to_vec(), how: "by offset", growths_at_take: growths });
+                    }
+                    if let Ok(Some(r)) = store.get_event_by_id(Id::from_bytes(e.sem.id)) {
+                        tracked.push(Tracked { addr: addr_of_ref(r), len: r.len(), offset: off, copy: r.as_bytes().to_vec(), how: "by id", growths_at_take: growths });
+                    }
+                    let f = SemFilter { ids: vec![e.sem.id], ..SemFilter::empty() }.to_owned().unwrap();
+                    if let Ok((evs, _)) = store.find_events(&f, true, 0, 0, |_| ScreenResult::Match) {
+                        for r in evs {
+                            tracked.push(Tracked { addr: addr_of_ref(r), len: r.len(), offset: off, copy: r.as_bytes().to_vec(), how: "from a query", growths_at_take: growths });
+                        }
+                    }
+                }
+                if st.remove_after {
+                    let _ = store.remove_event(Id::from_bytes(e.sem.id));
+                    rep.count("explicit_removals");
                 }
             }
         }
+        rep.count_n("stores", stores_done as u64);
         rep.eval(fnv(format!("{i}{content_len}{threaded}").as_bytes()), growths >= 1);
         rep.count_n("growth_events", growths);
         rep.count_n("references_tracked", tracked.len() as u64);
@@ -242,6 +272,10 @@ pub fn run(args: &Args) -> Report {
     }
     if rep.counter("growth_events") == 0 && only.is_none() {
         rep.inconclusive.push("no growth event observed".into());
+    }
+    if only.is_none() && !rep.has_finding("bytes-changed") && !rep.has_finding("bytes-changed-at-stable-address") && !rep.has_finding("reference-target-unreadable") {
+        rep.require("tail_replacements_of_a_referenced_event", "no referenced event was replaced while it was the newest in the map");
+        rep.require("tail_removals_of_a_referenced_event", "no referenced event was removed while it was the newest in the map");
     }
     rep
 }
